@@ -297,19 +297,23 @@ def _run_contract(args):
         res["unsupported"].extend([(str(a), b) for a, b in ex.unsupported])
         nob = 0
         failing = {}
+        extra_ms = [0]
         for P, status in results:
             for ob in P.obligations:
                 nob += 1
                 trouble = failing.get(ob.name, 0)
                 st, solver, ms, model = discharge(ob, timeout_ms if trouble < 3 else min(timeout_ms, 2000), seed, fallbacks=trouble < 3)
-                if st == "unknown" and trouble >= 3:
+                # second chances are bounded per task (a broken function can leave hundreds of hard queries): 3 minutes of extra solver time in all
+                if st == "unknown" and trouble >= 3 and extra_ms[0] < 180000:
                     # the short budget is for obligations that keep being refuted; an undecided one gets the full treatment after all
                     st, solver, ms2, model = discharge(ob, timeout_ms, seed, fallbacks=True)
                     ms += ms2
-                if st == "unknown":
+                    extra_ms[0] += ms2
+                if st == "unknown" and extra_ms[0] < 180000:
                     # verdicts must not flip with machine load or solver luck: one more attempt with four times the budget and another seed
                     st_b, solver_b, ms_b, model_b = discharge(ob, timeout_ms * 4, seed + 7919, fallbacks=True)
                     ms += ms_b
+                    extra_ms[0] += ms_b
                     if st_b != "unknown":
                         st, solver, model = st_b, solver_b + "(retry)", model_b
                 if st == "unknown":
